@@ -368,8 +368,54 @@ impl DS {
         SimpleDSet::from(self.to_partial_dset())
     }
 
+    /// the crate's PartialDSym for this symbol. For a quarter of the symbols (chosen by a hash of the
+    /// symbol, so that a case always takes the same route) the value has a HISTORY: it is first given
+    /// other branching numbers, read in every way, and only then re-assigned through set_v.
     pub fn to_partial(&self) -> PartialDSym {
+        if crate::util::h64(self) % 4 == 0 {
+            self.to_partial_with_history()
+        } else {
+            self.to_partial_fresh()
+        }
+    }
+
+    pub fn to_partial_fresh(&self) -> PartialDSym {
         let mut sym: PartialDSym = self.to_partial_dset().into();
+        for i in 0..self.dim {
+            for d in 1..=self.size {
+                sym.set_v(i, d, self.v[i][d]);
+            }
+        }
+        sym
+    }
+
+    /// the same value reached through a history: other branching numbers first (v + 1, or left
+    /// undefined on every third chamber), every query once, then the final numbers through set_v
+    pub fn to_partial_with_history(&self) -> PartialDSym {
+        let mut sym: PartialDSym = self.to_partial_dset().into();
+        for i in 0..self.dim {
+            for d in 1..=self.size {
+                if (d + i) % 3 != 0 {
+                    sym.set_v(i, d, self.v[i][d] + 1);
+                }
+            }
+        }
+        let _ = crate::runner::guarded(|| {
+            let mut acc = 0usize;
+            let _ = format!("{}", sym);
+            for i in 0..=self.dim {
+                for j in 0..=self.dim {
+                    for d in 1..=self.size {
+                        acc += sym.m(i, j, d).unwrap_or(0) + sym.v(i, j, d).unwrap_or(0) + sym.r(i, j, d).unwrap_or(0);
+                    }
+                }
+            }
+            let _ = sym.is_complete();
+            let _ = sym.is_minimal();
+            let _ = sym.automorphisms();
+            let _ = sym.clone();
+            acc
+        });
         for i in 0..self.dim {
             for d in 1..=self.size {
                 sym.set_v(i, d, self.v[i][d]);
